@@ -182,6 +182,19 @@ def do_switch(pid):
 
     def post_last(old, new, res):
         return z3.Implies(hit(old), new.z('self._last_switch_t') == old.z('self.system.dae.t'))
+
+    def connectivity(ex, st, args, kw, node):
+        st.ghost['n_conn'] = st.ghost.get('n_conn', 0) + 1
+        st.ghost['conn_after_action'] = st.ghost.get('n_switch_action', 0)
+        return None
+
+    def post_conn(old, new, res):
+        n = new.st.ghost.get('n_conn', 0)
+        after = new.st.ghost.get('conn_after_action', 0)
+        want = z3.And(hit(old), old.z('self.config.check_conn') == 1)
+        n = n if z3.is_expr(n) else z3.IntVal(n)
+        after = after if z3.is_expr(after) else z3.IntVal(after)
+        return z3.And(z3.Implies(want, z3.And(n == 1, after == 1)), z3.Implies(z3.Not(hit(old)), n == 0))
     return Contract(
         F, 'TDS.do_switch', pid=pid, params={'self': TObj()}, schema=tds_schema(),
         requires=[('no-refresh', lambda v: z3.Not(v.z('self.config.refresh_event'))),
@@ -189,17 +202,53 @@ def do_switch(pid):
                   ('switch_times-wellformed', switch_times_wf),
                   ('idx-in-range', lambda v: z3.And(v.z('self._switch_idx') >= 0,
                                                     v.z('self._switch_idx') <= v.z('self.system.n_switches')))],
-        ghost_init={'n_switch_action': 0, 'switch_action_arg': None},
+        ghost_init={'n_switch_action': 0, 'switch_action_arg': None, 'n_conn': 0, 'conn_after_action': 0},
         calls={'self.system.switch_action': switch_action, '__getitem__': getitem,
                'self.system.vars_to_models': spec(name='System.vars_to_models'),
-               'self.system.connectivity': spec(name='System.connectivity'),
+               'self.system.connectivity': connectivity,
                'self.system.store_switch_times': spec(name='System.store_switch_times')},
         ensures=[('dispatch-iff-time-equals-next-switch-time', post_ret), ('index-advances-by-one-iff-dispatched', post_idx),
                  ('switch_action-called-exactly-once-iff-dispatched', post_once),
                  ('switch_action-receives-the-models-registered-for-that-time', post_models),
-                 ('last-switch-time-recorded', post_last)],
+                 ('last-switch-time-recorded', post_last),
+                 ('connectivity-rechecked-once-after-every-dispatched-event(check_conn=1)', post_conn)],
         modifies=['self._switch_idx', 'self._last_switch_t', 'self.custom_event'],
     )
+
+
+def replay_do_switch(obligation, model, meta):
+    """native run of the real TDS.do_switch on kundur_full with two events that change no Line status (two generator trips):
+    every dispatched event must be followed by a connectivity re-check, and nothing is dispatched between events"""
+    import logging
+    import andes
+    logging.getLogger('andes').setLevel(logging.CRITICAL)
+    ss = andes.load(andes.get_case('kundur/kundur_full.xlsx'), default_config=True, no_output=True, setup=False)
+    for tg in list(ss.Toggle.idx.v):
+        ss.Toggle.alter('u', tg, 0)
+    ss.add('Toggle', dict(model='GENROU', dev=ss.GENROU.idx.v[1], t=1.0))
+    ss.add('Toggle', dict(model='GENROU', dev=ss.GENROU.idx.v[2], t=2.0))
+    ss.setup()
+    ss.PFlow.run()
+    tds = ss.TDS
+    tds.init()
+    calls = []
+    orig = ss.connectivity
+    ss.connectivity = lambda *a, **k: (calls.append(1), orig(*a, **k))[1]
+    import numpy as np
+    import contextlib
+    import io
+    times = [float(t) for t in ss.switch_times]
+    for t in times:
+        ss.dae.t = np.array(t)
+        n0 = len(calls)
+        with contextlib.redirect_stdout(io.StringIO()):
+            ret = tds.do_switch()
+        if ret is not True or len(calls) - n0 != 1:
+            return {'confirmed': True, 'inputs': {'case': 'kundur_full + Toggle GENROU at 1.0 and 2.0 (stock Toggle disabled)', 't': t,
+                                                  'switch_times': times},
+                    'observed': 'do_switch returned %r with %d connectivity re-check(s)' % (ret, len(calls) - n0),
+                    'native_cmd': 'TDS.do_switch() at every scheduled time with System.connectivity wrapped by a counter'}
+    return {'confirmed': False, 'tried': len(times)}
 
 
 def init_resume(pid):
